@@ -851,4 +851,26 @@ def replay(ctx, obj):
                 print("value_type", vt, "-> ValueError:", e)
     if "point" in obj:
         print("coords:", ant._convert_to_antenna_coordinates(np.asarray(obj["point"])))
+    if "steps" in obj:
+        # a receive history: replay it and show what the antenna stored / refused
+        for i, st in enumerate(obj["steps"]):
+            comps = st["components"]
+            sigs = [make_signal(np.asarray(c["times"]), np.asarray(c["values"]), c["value_type"]) for c in comps]
+            pols = [c["polarization"] for c in comps]
+            before = len(ant.signals)
+            try:
+                if st["kind"] == "single":
+                    o.receive(sigs[0], direction=obj.get("direction"), polarization=pols[0], force_real=obj.get("force_real", False))
+                elif st["kind"] == "len_mismatch":
+                    o.receive(sigs, direction=obj.get("direction"), polarization=pols[:1], force_real=obj.get("force_real", False))
+                elif st["kind"] == "pol_not_list":
+                    o.receive(sigs, direction=obj.get("direction"), polarization=None, force_real=obj.get("force_real", False))
+                else:
+                    o.receive(sigs, direction=obj.get("direction"), polarization=pols, force_real=obj.get("force_real", False))
+                res = "stored"
+            except ValueError as e:
+                res = "ValueError(%s)" % e
+            print("step %d (%s, types %s): %s; signals %d -> %d%s" % (i, st["kind"], [c["value_type"] for c in comps], res, before, len(ant.signals),
+                                                                       "" if res != "stored" else "; last values %s" % ant.signals[-1].values[:6]))
+        print("model: a refused call leaves `signals` unchanged; an accepted call appends exactly one signal, the sum of the components' responses")
     return 1
